@@ -43,12 +43,64 @@ def bounds(tier):
 
 
 def cases(tier):
-    return [(name, cx) for name in ('base', 'exp.v2') for cx in (0, 1)]
+    return [(name, cx) for name in ('base', 'exp.v2') for cx in (0, 1)] + [('mounts', 0), ('mounts', 1)]
+
+
+def mounts_harness(case):
+    """one pipeline file mounted under two namespaces with different parameter values (two files, same task classes)"""
+    _, with_context = case
+
+    def harness(ctx):
+        from taskchain import Config
+        from taskchain.utils.migration import migrate_to_parameter_mode
+        import ref.family_gen as FG
+        import io
+        import contextlib
+        world = hist.World(PIPE, [{}])
+        fs = world.fs
+        for n, c in world.classes.items():
+            setattr(FG, n, c)
+        fs.path('/dst').mkdir(parents=True, exist_ok=True) if _rp.MODE['replay'] else fs.path('/dst').mkdir(parents=True)
+        d = tempfile.mkdtemp(dir=_rp.MODE['tmp']) if _rp.MODE['replay'] else tempfile.mkdtemp(prefix='c20cfg')
+        try:
+            for i, scale in ((1, 2), (2, 3)):
+                with open(os.path.join(d, f'sub{i}.json'), 'w') as f:
+                    json.dump({'tasks': [f'ref.family_gen.{n}' for n in world.classes], 'scale': scale}, f)
+            mp = os.path.join(d, 'main.json')
+            with open(mp, 'w') as f:
+                json.dump({'uses': [f'{d}/sub1.json as n1', f'{d}/sub2.json as n2']}, f)
+            context = {'for_namespaces': {'n1': {'n': 4}}} if with_context else None
+            src, dst = fs.path('/data'), fs.path('/dst')
+            names = [f'{ns}::{t}' for ns in ('n1', 'n2') for t in NAMES]
+            mask = ctx.choice('computed', 8)
+            computed = [names[j] for j in ((0, 3), (1, 4), (2, 5), (0, 4), (3,), (2,), (1, 2, 3, 4), ())[mask]]
+            info = {'scenario': 'two mountings', 'context': context, 'computed': computed}
+            old = Config(src, mp, context=context).chain(parameter_mode=False)
+            for n in computed:
+                old[n].value
+            have = {n for n in names if old[n].has_data}
+            with contextlib.redirect_stdout(io.StringIO()):
+                migrate_to_parameter_mode(Config(src, mp, context=context), dst, dry=False, verbose=False)
+            del family.RUNLOG[:]
+            new = Config(dst, mp, context=context).chain()
+            got_have = {n for n in names if new[n].has_data}
+            ctx.check_concrete(got_have == have, 'migrated-exactly', dict(info, has_data=sorted(got_have), expected=sorted(have)))
+            for n in sorted(have & got_have):
+                v = family.norm_input(new[n].value)
+                exp = family.norm_input(old[n].value)
+                ctx.check_concrete(v == exp and n not in [r[0] for r in family.RUNLOG], 'values-equal',
+                                   dict(info, task=n, got=repr(v)[:200], expected=repr(exp)[:200]))
+        finally:
+            if not _rp.MODE['replay']:
+                shutil.rmtree(d, ignore_errors=True)
+    return harness
 
 
 def make_harness(case, tier):
     cname, with_context = case
     hist.setup(full=False)
+    if cname == 'mounts':
+        return mounts_harness(case)
 
     def harness(ctx):
         from taskchain import Config
